@@ -135,6 +135,15 @@ def unit(u, res):
         opts = [(sel == i, k) for i, k in enumerate(VALUE_KINDS)] + [(z3.UGE(sel, len(VALUE_KINDS)), 'ERR')]
         tag = ex_.branch(st, opts)
         st.log.append((c, args[0], args[1], is_fresh_default_context(ex_, args[1])))
+        if c.endswith('_mut'):
+            # an evaluation may assign: the context it was given is havocked (one more variable with an arbitrary value), on success and on failure alike
+            cv = ex_.deref_all(args[1])
+            if isinstance(cv, Adt) and cv.ty == 'HashMapContext':
+                for f in cv.fields:
+                    if isinstance(f, HashMapV) and not any(k.concrete() == 'f' for k in f.keys):
+                        f.keys.append(sstr('assigned_by_evaluation'))
+                        f.vals.append(C.v_int(z3.BitVec('assigned_value', 64)))
+                        break
         if tag == 'ERR':
             r = err(Adt('EvalexprError', C.VI('EvalexprError', 'CustomMessage'), [sstr('stub error')]))
         else:
@@ -182,6 +191,15 @@ def unit(u, res):
                 tag, r = o.state.notes[0]
                 want = r if tag == 'ERR' else project(C, typ, tag, r.fields[0])
                 claim = equal_term(o.value, want)
+                # state that outlives the call (thread-locals): inductive invariant "holds a fresh default context" — assumed at entry (lazy
+                # initialisation), must hold again at exit, otherwise the next call does not evaluate in a fresh context
+                for kname, cid in getattr(o.state, 'tls', {}).items():
+                    cell = [a for a in o.state.anchors if a.id == cid]
+                    inner = cell[0].val if cell else None
+                    if isinstance(inner, Adt) and inner.ty == 'RefCell':
+                        inner = inner.fields[0]
+                    if not cell or not is_fresh_default_context(ex, inner):
+                        why = 'state kept in a thread-local (%s) is not a fresh context when the entry point returns' % kname[:60]
         if why:
             claim = z3.BoolVal(False)
         from shapes import INT_POOL, FLOAT_POOL
@@ -336,6 +354,32 @@ def replay_ce(ce):
             if not okk:
                 details.append('%s: `%s`: %s -> %s ; %s -> %s ; expected projection %s' % (prof, expr, e_base, rb, e_wrap, rw, want))
                 bad = True
+    if form == 'nocontext':
+        # histories on one thread: whatever earlier context-free evaluations did (assign and succeed, assign and fail), a later one starts from
+        # a fresh empty context: reads of their variables are unknown, and a variable may take a value of another type
+        bare = name.replace('Node::', '')
+        e_wrap = bare if level == 'string' else 'node0:' + bare
+        poison = ['zq = 5; zq', 'zq = 5; yq = zq * 2; 1 / 0', 'wq = "s"; missing_fn(1)', 'vq = (1, 2); vq = 1', 'uq = true; uq + 1']
+        probes = [('zq', 'VariableIdentifierNotFound'), ('yq', 'VariableIdentifierNotFound'), ('wq', 'VariableIdentifierNotFound'), ('uq', 'VariableIdentifierNotFound'),
+                  ('zq = 2.5; zq', None), ('wq = 7; wq', None), ('vq = "t"; vq', None), ('uq = 1; uq', None)]
+        for prof in ('dev', 'release'):
+            text = ''.join(replay.case_text('p%d' % i, e_wrap, p_) for i, p_ in enumerate(poison))
+            text += ''.join(replay.case_text('q%d' % i, e_wrap, q) for i, (q, _) in enumerate(probes))
+            text += ''.join(replay.case_text('r%d' % i, 'eval' if level == 'string' else 'node0:eval', q) for i, (q, _) in enumerate(probes))
+            out = replay.run_cases(text, prof)
+            # reference: the same probes through the untyped context-free form *before* any poisoning cannot be had in the same process, so the
+            # reference is the specification: unknown-variable errors for reads, and for the writes the projection of a fresh evaluation
+            fresh = replay.run_cases(''.join(replay.case_text('f%d' % i, 'eval_with_context_mut', q) for i, (q, _) in enumerate(probes)), prof)
+            for i, (q, experr) in enumerate(probes):
+                got = out['q%d' % i].get('result')
+                ref = native_projection(typ, fresh['f%d' % i].get('result'))
+                if experr is not None:
+                    okk = bool(got and got[0] == 'Err' and got[1] == experr)
+                else:
+                    okk = same_native(got, ref)
+                if not okk:
+                    bad = True
+                    details.append('%s: after %d earlier context-free evaluations on the thread, `%s` through %s -> %s, in a fresh context %s' % (prof, len(poison), q, e_wrap, got, ref))
     if not bad and form == 'nocontext' and str(ce.get('why', '')).startswith('evaluator called'):
         # repeated evaluation inside a context-free form happens in a fresh context without user functions: every successful program
         # writes each variable before reading it, so a second run is indistinguishable -- the step property is violated, the observable
@@ -397,15 +441,18 @@ def replay_compose(ce):
     details = []
     bad = False
     for prof in ('dev', 'release'):
-        for expr in ['1 + 2', '1 +', '(', '"', 'a = 1', 'x']:
-            text = replay.case_text('s', ce['entry'] if ce['entry'] != 'build_operator_tree' else 'build', expr) + \
-                replay.case_text('t', 'node:' + ce['entry'] if ce['entry'] != 'build_operator_tree' else 'build', expr)
+        cx = dict(vars=[('k', ('Int', 1))], funcs=[('f', 'log'), ('g', 'log')]) if ce['entry'] != 'build_operator_tree' else {}
+        for expr in ['1 + 2', '1 +', '(', '"', 'a = 1', 'x', 'f(1)', 'f(1); a = 2', 'a = f(k); g(a); a', 'f(1); g(2); 1 / 0', 'k += f(2); k', 'f(1) + missing', 'g(f(1)); b = 1; b = "s"',
+                     'f(k); k = 5; f(k)']:
+            text = replay.case_text('s', ce['entry'] if ce['entry'] != 'build_operator_tree' else 'build', expr, **cx) + \
+                replay.case_text('t', 'node:' + ce['entry'] if ce['entry'] != 'build_operator_tree' else 'build', expr, **cx)
             out = replay.run_cases(text, prof)
             s, t = out['s'], out['t']
             rs = s.get('result') or s.get('build') or s.get('shape')
             rt = t.get('result') or t.get('build') or t.get('shape')
-            if rs != rt:
-                details.append('%s: `%s`: string form %s, precompiled form %s' % (prof, expr, rs, rt))
+            # same outcome, same final variables, same sequence of user-function calls (an entry point that evaluates twice shows here)
+            if rs != rt or s.get('vars') != t.get('vars') or s.get('log') != t.get('log'):
+                details.append('%s: `%s`: string form %s vars %s calls %s; precompiled form %s vars %s calls %s' % (prof, expr, rs, s.get('vars'), s.get('log'), rt, t.get('vars'), t.get('log')))
                 bad = True
     return ('reproduced' if bad else 'not_reproduced'), details or ['string-level and precompiled forms agree on the probe expressions']
 
